@@ -288,6 +288,9 @@ def Table.path (T : Table) (name : String) (i : Nat) : Option (List Event) :=
 inductive Step
   | query (q : Query)
   | mutate (name : String) (path : Nat) (post : Facts) (fills : List (List Query))
+  /-- a mutator given by the events it executed (an unrolling of a path of the table: loops with ANY number of
+      iterations, see `Expands`) -/
+  | events (es : List Event) (post : Facts) (fills : List (List Query))
   deriving Repr
 
 /-- one step of a history: `(answer, state)`; a mutator answers `unit` -/
@@ -298,6 +301,7 @@ def step (T : Table) (en : Bool) (st : Step) (s : St) : Ans × St :=
     match T.path name i with
     | some es => (.unit, execPath en post es fills s)
     | none => (.unit, s)
+  | .events es post fills => (.unit, execPath en post es fills s)
 
 def run (T : Table) (en : Bool) : List Step → St → St
   | [], s => s
@@ -423,11 +427,73 @@ def Table.coversRaising (T : Table) : Bool :=
 def Step.covered (T : Table) : Step → Bool
   | .query _ => true
   | .mutate n i _ _ => match T.path n i with | some es => pathOK es | none => true
+  | .events es _ _ => pathOK es
 
 /-- a step whose mutator returned normally (or raised on a covered path) -/
 def Step.admissible (T : Table) : Step → Bool
   | .query _ => true
   | .mutate n i _ _ => match T.path n i with | some es => endsRet es || pathOK es | none => true
+  | .events _ _ _ => false          -- unrollings are admitted through `Expands` (Props/C18: `Admissible`)
+
+/-! ### the information order on abstract values, and loops with any number of iterations -/
+
+/-- information order on abstract values: `a ⊑ b` when `b` allows everything `a` allows and knows no more -/
+def Abs.le (a b : Abs) : Bool :=
+  (!a.pAnti || b.pAnti) && (!a.pCorn || b.pCorn) && (!a.pSlic || b.pSlic) && (!a.pWod || b.pWod) &&
+  (!a.dAnti || b.dAnti) && (!a.dCorn || b.dCorn) && (!a.dSlic || b.dSlic) && (!a.dWodV || b.dWodV) &&
+  (!a.dWodM || b.dWodM) && (!a.dWodU || b.dWodU) && (!a.dWodR || b.dWodR) &&
+  (match b.varr with | none => true | some x => decide (a.varr = some x)) && (!b.roTrue || a.roTrue)
+
+def Abs.join (a b : Abs) : Abs :=
+  ⟨a.pAnti || b.pAnti, a.pCorn || b.pCorn, a.pSlic || b.pSlic, a.pWod || b.pWod, a.dAnti || b.dAnti,
+   a.dCorn || b.dCorn, a.dSlic || b.dSlic, a.dWodV || b.dWodV, a.dWodM || b.dWodM, a.dWodU || b.dWodU,
+   a.dWodR || b.dWodR, (match decide (a.varr = b.varr) with | true => a.varr | false => none), a.roTrue && b.roTrue⟩
+
+def Abs.top : Abs := ⟨true, true, true, true, true, true, true, true, true, true, true, none, false⟩
+
+/-! ### loops: every number of iterations -/
+
+/-- a piece of a path: straight code (one alternative, run once) or a loop (any number of iterations, each
+    running one of the alternative bodies) -/
+structure Seg where
+  isLoop : Bool
+  alts : List (List Event)
+  deriving DecidableEq, Repr
+
+/-- one abstract round: the entry value joined with the result of every alternative body -/
+def absAlts (alts : List (List Event)) (a : Abs) : Abs :=
+  alts.foldl (fun acc es => acc.join (absPath es a)) a
+
+def absIter : Nat → List (List Event) → Abs → Abs
+  | 0, _, a => a
+  | n + 1, alts, a => absIter n alts (absAlts alts a)
+
+/-- abstract value after a segment; for a loop: an iterate that is CHECKED to be a post-fixpoint (else ⊤) -/
+def absSeg (s : Seg) (a : Abs) : Abs :=
+  match s.isLoop with
+  | false => match s.alts with
+    | [es] => absPath es a
+    | _ => Abs.top
+  | true =>
+    let x := absIter 16 s.alts a
+    match s.alts.all fun es => (absPath es x).le x with
+    | true => x
+    | false => Abs.top
+
+def absSegs : List Seg → Abs → Abs
+  | [], a => a
+  | s :: ss, a => absSegs ss (absSeg s a)
+
+def segsOK (segs : List Seg) : Bool :=
+  (absSegs segs (Abs.start true)).clean && (absSegs segs (Abs.start false)).clean
+
+/-- the event lists a segmented path stands for -/
+inductive Expands : List Seg → List Event → Prop
+  | nil : Expands [] []
+  | straight {es rest : List Event} {segs : List Seg} :
+      Expands segs rest → Expands (⟨false, [es]⟩ :: segs) (es ++ rest)
+  | loop {alts iters : List (List Event)} {rest : List Event} {segs : List Seg} :
+      (∀ b ∈ iters, b ∈ alts) → Expands segs rest → Expands (⟨true, alts⟩ :: segs) (iters.flatten ++ rest)
 
 /-! ### a shrunk object holds a reference to its original (known finding KF-C18-1) -/
 
